@@ -317,7 +317,7 @@ def main(argv=None):
                 picked += [(x, None) for x in lst]
                 continue
             best = None
-            for cand in lst[:4]:
+            for cand in lst[:12]:
                 path, confirmed = RP.write_replay(prop, cand[0], cand[1], cand[2], do_run=not a.no_replay)
                 if best is None:
                     best = (cand, (path, confirmed))
